@@ -39,13 +39,20 @@ inductive Expr (C : Type) where
   | bor (a b : Expr C)                  -- `any([a, b..])`: 1 if a ≠ 0 or b ≠ 0 else 0
   | false_                              -- `any([])` = False = 0
   | isZero (a : Expr C)                 -- `(a) == 0` : True / False = 1 / 0
+  | abs (a : Expr C)                    -- python builtin `abs(a)` (user text; `from builtins import *` comes last, l.1221/1306)
+  | app1 (f : Nat) (a : Expr C)         -- a unary numeric function of the generated namespace (`sqrt`, `exp`, `floor`, ..)
+  | app2 (f : Nat) (a b : Expr C)       -- a binary one; `f = 0` is python's `a ** b`
   deriving DecidableEq, Repr, Inhabited
 
-/-- numeral reader and the two tolerance parameters (`locals['tol']`, `locals['rel']`) -/
+/-- numeral reader, the two tolerance parameters (`locals['tol']`, `locals['rel']`) and the reading of the function
+symbols of the generated namespace (`from math import *; from numpy import *`, l.1219/1304). The theorems hold for
+EVERY reading of the function symbols; the driver instantiates them with the IEEE / libm functions. -/
 structure Env (C R : Type) where
   ι : C → R
   tol : R
   rel : R
+  f1 : Nat → R → R := fun _ a => a
+  f2 : Nat → R → R → R := fun _ a _ => a
 
 section ops
 variable {C R : Type} [Add R] [Sub R] [Mul R] [Div R] [Neg R] [LT R] [DecidableLT R] [BEq R]
@@ -53,6 +60,8 @@ variable {C R : Type} [Add R] [Sub R] [Mul R] [Div R] [Neg R] [LT R] [DecidableL
 
 /-- python `abs` on a float -/
 def absR (a : R) : R := if a < 0 then -a else a
+/-- python builtin `abs` as the user's text calls it: `abs(-0.0)` is `0.0` (`a + 0` clears the sign of a zero) -/
+def absZ (a : R) : R := if a < 0 then -a else a + 0
 /-- python builtin `max(a, b)`: the first argument wins unless `b > a` -/
 def pyMax (a b : R) : R := if a < b then b else a
 /-- python builtin `min(a, b)`: the first argument wins unless `b < a` -/
@@ -77,8 +86,12 @@ def Expr.eval (env : Env C R) (x : List R) : Expr C → R
   | .bor a b => b2r (a.eval env x != 0 || b.eval env x != 0)
   | .false_ => 0
   | .isZero a => b2r (a.eval env x == 0)
+  | .abs a => absZ (a.eval env x)
+  | .app1 f a => env.f1 f (a.eval env x)
+  | .app2 f a b => env.f2 f (a.eval env x) (b.eval env x)
 
-/-- no `IndexError` (`x[j]` with `j ≥ len x`) and no `ZeroDivisionError` while evaluating -/
+/-- no `IndexError` (`x[j]` with `j ≥ len x`) and no `ZeroDivisionError` while evaluating
+(`0.0 ** negative` raises ZeroDivisionError; the numpy functions never raise) -/
 def Expr.defined (env : Env C R) (x : List R) : Expr C → Bool
   | .num _ => true
   | .var j => decide (j < x.length)
@@ -94,6 +107,10 @@ def Expr.defined (env : Env C R) (x : List R) : Expr C → Bool
   | .bor a b => a.defined env x && b.defined env x
   | .false_ => true
   | .isZero a => a.defined env x
+  | .abs a => a.defined env x
+  | .app1 _ a => a.defined env x
+  | .app2 f a b => a.defined env x && b.defined env x &&
+      !(f == 0 && a.eval env x == 0 && decide (b.eval env x < 0))
 
 end ops
 
@@ -113,6 +130,9 @@ def Expr.mentions {C : Type} (i : Nat) : Expr C → Bool
   | .bor a b => a.mentions i || b.mentions i
   | .false_ => false
   | .isZero a => a.mentions i
+  | .abs a => a.mentions i
+  | .app1 _ a => a.mentions i
+  | .app2 _ a b => a.mentions i || b.mentions i
 
 /-- expressions whose value is a python bool (0 or 1) -/
 def Expr.isBool {C : Type} : Expr C → Bool
